@@ -1,12 +1,36 @@
 --------------------------- MODULE CmdLineLattice ---------------------------
 (* Token alphabet for C12: every documented option in attached and separated form with identifier-like
-   values, bare value tokens, and a set of malformed tokens; vectors of up to MaxLen tokens; the probe registry. *)
+   values, bare value tokens, and a set of malformed tokens; vectors of up to MaxLen tokens; the probe registry.
+   Counts and seeds are digit strings: small ones (Nums, written by Digits) and named texts (NumText) that cover the whole
+   documented range 1..2^32-1 - 2^31-1, 2^31, a ten-digit value, 2^32-1, leading zeros - and its outside (2^32, 2^32+5,
+   eleven digits, zero). *)
 EXTENDS CmdLine
 CONSTANTS GChars, NChars, Nums,      \* one-letter group values, one-letter name values (byte codes), counts (naturals)
+          BigNums,                   \* names of further counts / seeds inside the documented range (NumText)
+          OpenNums,                  \* names of digit strings outside it (zero, 2^32 and more): no documented meaning
           WithMalformed              \* include the malformed tokens
 GVals == { <<c>> : c \in GChars }
 NVals == { <<c>> : c \in NChars }
-Numbers == { Digits(n) : n \in Nums }
+NumText(n) ==
+              CASE n = "007" -> <<48, 48, 55>>
+                [] n = "0000000012" -> <<48, 48, 48, 48, 48, 48, 48, 48, 49, 50>>
+                [] n = "12" -> <<49, 50>>
+                [] n = "2^31-1" -> <<50, 49, 52, 55, 52, 56, 51, 54, 52, 55>>
+                [] n = "2^31" -> <<50, 49, 52, 55, 52, 56, 51, 54, 52, 56>>
+                [] n = "3000000123" -> <<51, 48, 48, 48, 48, 48, 48, 49, 50, 51>>
+                [] n = "2^32-1" -> <<52, 50, 57, 52, 57, 54, 55, 50, 57, 53>>
+                [] n = "2^32" -> <<52, 50, 57, 52, 57, 54, 55, 50, 57, 54>>
+                [] n = "2^32+5" -> <<52, 50, 57, 52, 57, 54, 55, 51, 48, 49>>
+                [] n = "99999999999" -> <<57, 57, 57, 57, 57, 57, 57, 57, 57, 57, 57>>
+                [] n = "0" -> <<48>>
+                [] n = "00" -> <<48, 48>>
+InRangeNames == {"007", "0000000012", "12", "2^31-1", "2^31", "3000000123", "2^32-1"}
+OutOfRangeNames == {"2^32", "2^32+5", "99999999999", "0", "00"}
+ASSUME BigNums \subseteq InRangeNames /\ OpenNums \subseteq OutOfRangeNames
+ASSUME \A n \in InRangeNames : IsNumber(NumText(n))
+ASSUME \A n \in OutOfRangeNames : IsDigits(NumText(n)) /\ ~IsNumber(NumText(n))
+Numbers == { Digits(n) : n \in Nums } \cup { NumText(n) : n \in BigNums }
+OpenNumbers == { NumText(n) : n \in OpenNums }
 
 DotVals == { g \o <<46>> \o n : g \in GVals, n \in NVals }
 TestForms == { T_TESTL \o g \o T_commasp \o n \o <<41>> : g \in GVals, n \in NVals } \cup
@@ -27,7 +51,17 @@ Malformed ==
       T_dt \o <<46, 120>>, T_dt \o <<65, 46>>, T_do \o <<102, 111, 111>>, <<>>, <<45>>, T_dr \o <<48>>, T_dr \o <<120>>, T_dr \o <<45, 51>>,
       T_ds \o <<48>>, T_ds \o <<120>>, <<45, 113>>, T_dp \o <<102, 111, 111>>, T_dg \o <<45, 118>>, <<195, 169>>, T_dg \o <<233>>,
       <<45, 118, 118, 118>>, T_TESTL \o <<65, 44, 32, 120>> }
-Tokens == IF WithMalformed THEN DocTokens \cup Malformed ELSE DocTokens
+\* digit strings outside the documented range, attached, separated and bare
+OpenNumTokens == OpenNumbers \cup { p \o n : p \in {T_dr, T_ds}, n \in OpenNumbers }
+Tokens == IF WithMalformed THEN DocTokens \cup Malformed \cup OpenNumTokens ELSE DocTokens
+
+\* the numeric vectors: every number text (inside and outside the range) with -r and -s in attached and separated form,
+\* alone, before and after one other token
+AllNumbers == { NumText(n) : n \in InRangeNames \cup OutOfRangeNames } \cup { Digits(n) : n \in Nums }
+NumFollow == {T_dv, T_do \o T_normal, T_dh, <<51>>, T_db, T_ds, T_dr, T_dg \o <<65>>}
+NumVectors == UNION { { <<p \o n>>, <<p, n>> } \cup
+                      UNION { { <<p \o n, t>>, <<p, n, t>>, <<t, p \o n>>, <<t, p, n>> } : t \in NumFollow }
+                      : p \in {T_dr, T_ds}, n \in AllNumbers }
 VectorsOfLen(n) == [1..n -> Tokens]
 
 \* the probe registry: groups A, AB, B x names x, xy, y, and two ignored tests
